@@ -221,10 +221,11 @@ End WinEmit.
 (* ================================================================ the FSEvents emitter
    Everything about FSEvents ([fsevents_kernel], coalescing) is modelled from the documentation and the
    comments in fsevents.py; it cannot be validated in this sandbox. *)
-Require WD.Model.FsEvents WD.Proofs.FsEventsProofs.
+Require WD.Model.FsEvents WD.Proofs.FsEventsProofs WD.Proofs.FsContractProofs WD.Proofs.FsReplayProofs.
 
 Module Fse.
 Import WD.Base.BStr WD.Model.SubEvents WD.Model.PlatFs WD.Model.FsEvents WD.Proofs.FsEventsProofs.
+Import WD.Proofs.WinEmitterProofs WD.Proofs.WinReplayProofs WD.Proofs.FsContractProofs WD.Proofs.FsReplayProofs.
 
 (* Non-recursive watch: whatever the native batch (any flags, any paths, any coalescing, any cut), the
    _fs_view and the state of the file system, every queued event passed _is_recursive_event ... *)
@@ -258,10 +259,13 @@ Theorem C20_fsevents_flat_strict_refuted :
 Proof. exact fsevents_flat_strict_refuted. Qed.
 Print Assumptions C20_fsevents_flat_strict_refuted.
 
-(* Contract and replay for uncoalesced one-operation batches: full statements.  Not proved in Coq in
-   this round (the emitter's per-flag table needs the _fs_view / os.stat invariant "the view contains
-   the inodes of the entries already announced"); checked on every run by the correspondence (model =
-   code on the same batches) and by the oracle (replay of the real events = real tree). *)
+(* Contract for one operation per batch without coalescing, any operation of the alphabet, any
+   tree, recursive or not: given oracles that answer for the tree after the operation and a _fs_view
+   that holds only inodes of the current tree, FSEventsEmitter.queue_events queues exactly the
+   contract (created / deleted + parent modified; rename inside = one moved event with both paths +
+   both parents modified + one synthetic moved event per descendant; move in = created + parent
+   modified + synthetic created per descendant; move out = deleted + parent modified), after the
+   non-recursive filter, and does not request a stop. *)
 Definition C20_fsevents_contract_full : Prop :=
   forall stat_ino walk sub recursive root view before o,
   root <> [] -> last_is_sep root = false ->
@@ -274,12 +278,53 @@ Definition C20_fsevents_contract_full : Prop :=
     queue_events stat_ino walk recursive root view (map (frender root) (fsevents_kernel before o))
     = Some (filter (keep recursive root) (map (render root) (fse_contract sub before after o)), v, false).
 
+Theorem C20_fsevents_contract : C20_fsevents_contract_full.
+Proof. exact fse_contract_full_wf. Qed.
+Print Assumptions C20_fsevents_contract.
+
 Definition C20_fsevents_replay_full : Prop :=
   forall (sub : path -> tree) (before : fs) (o : op),
   wf_fs before -> op_names_ok o = true -> op_ok before o = true ->
   let after := apply_op before o in
-  Permutation (map (fun x => (snd x, fst x)) (desc [] (sub (WinEmitterProofs.target o)))) (below after (WinEmitterProofs.target o)) ->
+  Permutation (map (fun x => (snd x, fst x)) (desc [] (sub (target o)))) (below after (target o)) ->
   Permutation (replay (view_of before) (fse_contract sub before after o)) (view_of after).
+
+Theorem C20_fsevents_replay : C20_fsevents_replay_full.
+Proof. exact fse_replay_full_wf. Qed.
+Print Assumptions C20_fsevents_replay.
+
+(* Histories of any length, one operation per batch, no coalescing, recursive watch, from any
+   well-formed tree and any _fs_view within the inodes seen so far: the events the emitter queues over
+   the whole history (its _fs_view carried from call to call) are exactly the rendered contracts, and
+   replaying them reproduces the final tree.  [fse_history_ok] spells out the hypotheses per step:
+   the operation succeeds, os.stat / os.walk answer for the tree after it, the walked tree covers the
+   operation's target, and a created file or directory gets an inode number never seen before. *)
+Theorem C20_fsevents_history :
+  forall root ops orcs seen view f,
+  root <> [] -> last_is_sep root = false -> wf_fs f ->
+  fse_history_ok root orcs seen f ops -> (forall j, mem j view = true -> In j seen) ->
+  exists v, fse_run true root orcs view f ops = Some (map (render root) (fse_history orcs f ops), v) /\
+            Permutation (replay (view_of f) (fse_history orcs f ops)) (view_of (fold_left apply_op ops f)).
+Proof. exact fse_history_recursive. Qed.
+Print Assumptions C20_fsevents_history.
+
+(* The no-inode-reuse hypothesis of [fse_history_ok] is necessary: mkdir a; touch a/f (inode 9);
+   mv a <outside>; touch g (inode 9 again) - only a's inode left the _fs_view, so g's creation is not
+   queued at all. *)
+Theorem C20_fsevents_inode_reuse_refuted :
+  let r_ : bytes := [47; 114]%N in
+  let a := [[97]]%N in let af := [[97]; [102]]%N in let g := [[103]]%N in
+  let ops := [OMkdir a 5; OCreate af 9; OMoveOut a; OCreate g 9]%N in
+  let st (l : list (path * N)) (p : bytes) :=
+      match find (fun x => beqb (abspath r_ (fst x)) p) l with Some x => Some (snd x) | None => None end in
+  let e := Node [] [] in
+  let orcs := [Oracle (st [(a, 5)]) (fun _ => e) (fun _ => e); Oracle (st [(a, 5); (af, 9)]) (fun _ => e) (fun _ => e);
+               Oracle (st []) (fun _ => e) (fun _ => e); Oracle (st [(g, 9)]) (fun _ => e) (fun _ => e)]%N in
+  exists out v, fse_run true r_ orcs [] [] ops = Some (out, v) /\
+    ~ In (Created KFile (abspath r_ g) false) out /\
+    view_of (fold_left apply_op ops []) = [(g, KFile)].
+Proof. exact fse_inode_reuse_refuted. Qed.
+Print Assumptions C20_fsevents_inode_reuse_refuted.
 
 (* Several operations in one batch (flags coalesced per item and path): the replay law is false of the
    emitter - F12 (proposed known finding).  mv a b; mv b c arrives as a, b, c all flagged renamed with
